@@ -30,4 +30,4 @@ class CandlestickType(ABC):
         for index in range(len(candles) - 1, 0, -1):
             if self.name == candles[index].tag:
                 return index + 1
-        return len(candles)
+        return 1
